@@ -152,6 +152,12 @@ var leafElementsByMsgFullName = map[string]struct{}{
 	"google.fhir.r4.core.Time":     {},
 }
 
+// fhirPathKeywords are the FHIRPath keywords that cannot be used as a plain
+// identifier in a path.
+var fhirPathKeywords = map[string]bool{
+	"div": true, "mod": true, "and": true, "or": true, "xor": true, "implies": true, "true": true, "false": true,
+}
+
 // computeFHIRPathOfProtoPath returns the FHIR path of p.
 //
 // The following cases are supported:
@@ -185,6 +191,9 @@ func computeFHIRPathOfProtoPath(p protopath.Path) (string, error) {
 				return "", fmt.Errorf("%w: for %s", ErrFhirPathNotImplemented, cfn)
 			}
 			elementName := fd.JSONName()
+			if fhirPathKeywords[elementName] {
+				elementName = "`" + elementName + "`" // e.g. Narrative.div: a keyword has to be a delimited identifier
+			}
 			if cof := fd.ContainingOneof(); cof != nil && cof.Name() == "choice" {
 				cappedName := strings.ToUpper(elementName[0:1]) + elementName[1:]
 				fhirpath[len(fhirpath)-1] += cappedName
